@@ -26,14 +26,18 @@ HexMin(a, b) == IF a < b THEN a ELSE b
 Expected(bytes, p, upper) ==
     SubSeq(Digits(bytes, upper), 1, IF p < 0 THEN 2 * Len(bytes) ELSE HexMin(p, 2 * Len(bytes)))
 
-HexOK(r) == r.out = Expected(Bytes(r.n, r.pat), r.prec, r.upper)
+\* the same, computed digit by digit from the pattern (no 2N-element intermediate: N may be 2^20)
+DigitAt(pat, j, upper) == LET b == PatByte(pat, ((j + 1) \div 2) - 1) IN HexDigit(IF j % 2 = 1 THEN b \div 16 ELSE b % 16, upper)
+ExpectedP(n, pat, p, upper) == [j \in 1..(IF p < 0 THEN 2 * n ELSE HexMin(p, 2 * n)) |-> DigitAt(pat, j, upper)]
+
+HexOK(r) == r.out = ExpectedP(r.n, r.pat, r.prec, r.upper)
 
 (* Formatting into a sink of capacity r.cap that refuses (as a whole) any piece which does not fit:      *)
 (* the formatter reports success exactly when the sink never refused; success means the sink holds the   *)
 (* whole expected string; and when that string fits, no piece can have been refused.  How the output is  *)
 (* cut into pieces, and what the sink holds after a refusal, is not constrained.                         *)
 HexSinkOK(r) ==
-    LET e == Expected(Bytes(r.n, r.pat), r.prec, r.upper) IN
+    LET e == ExpectedP(r.n, r.pat, r.prec, r.upper) IN
     /\ r.ok = ~r.failed
     /\ r.ok => r.out = e
     /\ Len(e) <= r.cap => r.ok
